@@ -41,13 +41,13 @@ type c20Ratio struct {
 }
 type c20Market struct {
 	CreateAsk, CreateBid, CreateCom, SellerFlat, BuyerFlat []c20Coin
-	SellerRatios, BuyerRatios                               []c20Ratio
-	AccOrders, UserSettle, AccCommit                        bool
-	ReqAsk, ReqBid, ReqCom                                  []string
+	SellerRatios, BuyerRatios                              []c20Ratio
+	AccOrders, UserSettle, AccCommit                       bool
+	ReqAsk, ReqBid, ReqCom                                 []string
 }
 
-func (c c20Coin) sdk() sdk.Coin { return sdk.Coin{Denom: c.D, Amount: sdkmath.NewIntFromBigInt(c.A)} }
-func (c c20Coin) coq() string  { return "(" + coqStr(c.D) + ", " + zBig(c.A) + ")" }
+func (c c20Coin) sdk() sdk.Coin  { return sdk.Coin{Denom: c.D, Amount: sdkmath.NewIntFromBigInt(c.A)} }
+func (c c20Coin) coq() string    { return "(" + coqStr(c.D) + ", " + zBig(c.A) + ")" }
 func (c c20Coin) String() string { return c.A.String() + c.D }
 func (r c20Ratio) sdk() exchange.FeeRatio {
 	return exchange.FeeRatio{Price: c20Coin{r.PD, r.PA}.sdk(), Fee: c20Coin{r.FD, r.FA}.sdk()}
@@ -252,7 +252,7 @@ func c20ReqList(r *rand.Rand, w *CaseWriter) []string {
 	for i := 0; i < n; i++ {
 		out = append(out, c20Decorate(r, c20Reqs[perm[i]]))
 	}
-	switch r.Intn(14) {
+	switch r.Intn(24) {
 	case 0: // an invalid or odd entry
 		out = append(out, c20Decorate(r, c20BadReqs[r.Intn(len(c20BadReqs))]))
 		w.Count("req_lists_with_odd_entry")
@@ -466,7 +466,7 @@ func TestC20(t *testing.T) {
 		}
 	}
 	var rich sdk.Coins
-	big30 := sdkmath.NewIntFromBigInt(new(big.Int).Exp(c20Big(10), c20Big(40), nil))
+	big30 := sdkmath.NewIntFromBigInt(new(big.Int).Exp(c20Big(10), c20Big(62), nil))
 	for _, d := range c20AllDenoms {
 		rich = rich.Add(sdk.NewCoin(d, big30))
 	}
@@ -508,6 +508,8 @@ func TestC20(t *testing.T) {
 		return accts[r.Intn(nAcct)]
 	}
 
+	probeKeys := map[string]struct{}{}
+	probeKey := func(k string) { probeKeys[k] = struct{}{} }
 	nMarkets := scale(70, 2500)
 	for mi := 0; mi < nMarkets; mi++ {
 		m := c20GenMarket(r, w)
@@ -585,7 +587,7 @@ func TestC20(t *testing.T) {
 					w.Count("flat_probes_accepted")
 				}
 				if len(fk.opts) > 0 && fee != nil {
-					w.Nontrivial(fmt.Sprintf("flat/%v/%s", c20StrCoins(fk.opts), fee))
+					probeKey(fmt.Sprintf("flat/%v/%s", c20StrCoins(fk.opts), fee))
 				}
 			}
 		}
@@ -654,7 +656,9 @@ func TestC20(t *testing.T) {
 				fee = append(fee, c20Coin{d, a})
 			}
 			r.Shuffle(len(fee), func(i, j int) { fee[i], fee[j] = fee[j], fee[i] })
-			e := try(func() error { return k.ValidateBuyerSettlementFee(mctx, marketID, price.sdk(), sdk.Coins(c20Coins(fee))) })
+			e := try(func() error {
+				return k.ValidateBuyerSettlementFee(mctx, marketID, price.sdk(), sdk.Coins(c20Coins(fee)))
+			})
 			addProbe("PBuyer "+price.coq()+" "+c20CoqCoins(fee)+" "+coqBool(e == nil),
 				desc{"probe": "ValidateBuyerSettlementFee", "price": price.String(), "fee": c20StrCoins(fee), "ok": e == nil})
 			w.Count("buyer_fee_probes")
@@ -663,7 +667,7 @@ func TestC20(t *testing.T) {
 				w.Count("buyer_fee_probes_accepted")
 			}
 			if created && (len(m.BuyerFlat) > 0 || len(m.BuyerRatios) > 0) && len(fee) > 0 {
-				w.Nontrivial(fmt.Sprintf("buyer/%v/%v/%s/%v", c20StrCoins(m.BuyerFlat), m.BuyerRatios, price, c20StrCoins(fee)))
+				probeKey(fmt.Sprintf("buyer/%v/%v/%s/%v", c20StrCoins(m.BuyerFlat), m.BuyerRatios, price, c20StrCoins(fee)))
 			}
 			if created && len(m.BuyerFlat) > 0 && len(m.BuyerRatios) > 0 {
 				w.Count("buyer_fee_probes_flat_and_ratio_required")
@@ -725,7 +729,7 @@ func TestC20(t *testing.T) {
 				w.Count("ask_price_probes_accepted")
 			}
 			if created && (len(m.SellerRatios) > 0 || fa.Sign() > 0) {
-				w.Nontrivial(fmt.Sprintf("askprice/%v/%s/%s", m.SellerRatios, price, c20OptStr(flat)))
+				probeKey(fmt.Sprintf("askprice/%v/%s/%s", m.SellerRatios, price, c20OptStr(flat)))
 			}
 		}
 
@@ -752,7 +756,7 @@ func TestC20(t *testing.T) {
 					w.Count("can_create_probes_allowed")
 				}
 				if created && len(ck.reqs) > 0 {
-					w.Nontrivial(fmt.Sprintf("can/%v/%v", ck.reqs, a.attrs))
+					probeKey(fmt.Sprintf("can/%v/%v", ck.reqs, a.attrs))
 				}
 			}
 		}
@@ -761,174 +765,210 @@ func TestC20(t *testing.T) {
 		var makerBid, makerAsk uint64
 		var makerBidPrice, makerAskPrice c20Coin
 		assets := sdk.NewInt64Coin("asset", 10)
-		if created && m.AccOrders {
-			pd := c20PriceDenoms[r.Intn(len(c20PriceDenoms))]
-			if len(m.BuyerRatios) > 0 {
-				pd = m.BuyerRatios[r.Intn(len(m.BuyerRatios))].PD
-			}
-			makerBidPrice = c20Coin{pd, c20Big(r.Int63n(1_000_000) + 1000)}
-			bidFees := c20BuyerFees(r, m, makerBidPrice, true)
-			bmsg := &exchange.MsgCreateBidRequest{
-				BidOrder: exchange.BidOrder{MarketId: marketID, Buyer: maker.String(), Assets: assets, Price: makerBidPrice.sdk(),
-					BuyerSettlementFees: sdk.NewCoins(c20Coins(bidFees)...)},
-			}
-			if f := c20FlatChoice(r, m.CreateBid, true); f != nil {
-				c := f.sdk()
-				bmsg.OrderCreationFee = &c
-			}
-			if e := handle(mctx, bmsg); e == nil {
-				makerBid = c20LastOrder(app, mctx)
-			} else {
-				w.Count("maker_bid_not_created")
-			}
-			makerAskPrice = c20Coin{pd, new(big.Int).Add(pow2(100), c20Big(r.Int63n(1000)))}
-			amsg := &exchange.MsgCreateAskRequest{
-				AskOrder: exchange.AskOrder{MarketId: marketID, Seller: maker.String(), Assets: assets, Price: makerAskPrice.sdk()},
-			}
-			if f := c20FlatChoice(r, m.SellerFlat, true); f != nil && len(m.SellerFlat) > 0 {
-				c := f.sdk()
-				amsg.AskOrder.SellerSettlementFlatFee = &c
-			}
-			if f := c20FlatChoice(r, m.CreateAsk, true); f != nil {
-				c := f.sdk()
-				amsg.OrderCreationFee = &c
-			}
-			if e := handle(mctx, amsg); e == nil {
-				makerAsk = c20LastOrder(app, mctx)
-			} else {
-				w.Count("maker_ask_not_created")
-			}
-		}
-
-		// ---- the message handlers ----
-		nAct := 24
-		for ai := 0; ai < nAct; ai++ {
-			a := pickAcct()
-			good := func() bool { return r.Intn(9) != 0 }
-			toPtr := func(c *c20Coin) *sdk.Coin {
-				if c == nil {
-					return nil
+		m0 := m // the market as created; m's flags follow the updates below
+		for phase := 0; phase < 2; phase++ {
+			if phase == 1 {
+				// ---- flip the accepting / user-settle flags through the real keeper, then probe again ----
+				if !created {
+					break
 				}
-				s := c.sdk()
-				return &s
+				ao, us, ac := r.Intn(3) != 0, r.Intn(3) != 0, r.Intn(3) != 0
+				if ao == m.AccOrders && us == m.UserSettle && ac == m.AccCommit {
+					ao = !ao
+				}
+				ok := true
+				if ao != m.AccOrders {
+					ok = ok && try(func() error { return k.UpdateMarketAcceptingOrders(mctx, marketID, ao, "verif") }) == nil
+				}
+				if us != m.UserSettle {
+					ok = ok && try(func() error { return k.UpdateUserSettlementAllowed(mctx, marketID, us, "verif") }) == nil
+				}
+				if ac != m.AccCommit {
+					ok = ok && try(func() error { return k.UpdateMarketAcceptingCommitments(mctx, marketID, ac, "verif") }) == nil
+				}
+				if !ok {
+					w.Count("flag_update_failed")
+					break
+				}
+				m.AccOrders, m.UserSettle, m.AccCommit = ao, us, ac
+				addProbe("PFlags "+coqBool(ao)+" "+coqBool(us)+" "+coqBool(ac),
+					desc{"probe": "UpdateFlags", "accepting_orders": ao, "allow_user_settlement": us, "accepting_commitments": ac})
+				w.Count("flag_updates")
 			}
-			var msg sdk.Msg
-			var term, kind string
-			d := desc{"probe": "handler", "account_attrs": a.attrs}
-			kinds := []string{"ask", "bid", "commit", "commit", "fillbids", "fillasks"}
-			kind = kinds[r.Intn(len(kinds))]
-			if kind == "fillbids" && makerBid == 0 && (created && m.AccOrders) {
-				kind = "ask"
-			}
-			if kind == "fillasks" && makerAsk == 0 && (created && m.AccOrders) {
-				kind = "bid"
-			}
-			switch kind {
-			case "ask":
-				var pd string
-				if len(m.SellerRatios) > 0 && r.Intn(8) != 0 {
-					pd = m.SellerRatios[r.Intn(len(m.SellerRatios))].PD
-				} else {
-					pd = c20PriceDenoms[r.Intn(len(c20PriceDenoms))]
-				}
-				sflat := c20FlatChoice(r, m.SellerFlat, good())
-				if len(m.SellerFlat) == 0 && r.Intn(2) == 0 {
-					sflat = nil
-				}
-				cfee := c20FlatChoice(r, m.CreateAsk, good())
-				price := c20Coin{pd, c20Big(r.Int63n(1_000_000_000) + 1)}
-				if r.Intn(6) == 0 { // near the fees taken out of the price
-					fa := c20Big(0)
-					if sflat != nil && sflat.D == pd {
-						fa = sflat.A
-					}
-					price.A = new(big.Int).Add(fa, c20Big(r.Int63n(4)))
-					if price.A.Sign() == 0 {
-						price.A = c20Big(1)
-					}
-				}
-				msg = &exchange.MsgCreateAskRequest{
-					AskOrder:         exchange.AskOrder{MarketId: marketID, Seller: a.addr.String(), Assets: assets, Price: price.sdk(), SellerSettlementFlatFee: toPtr(sflat)},
-					OrderCreationFee: toPtr(cfee),
-				}
-				term = "ACreateAsk " + price.coq() + " " + c20CoqOptCoin(sflat) + " " + c20CoqOptCoin(cfee)
-				d["msg"], d["price"], d["seller_settlement_flat_fee"], d["creation_fee"] = "MsgCreateAsk", price.String(), c20OptStr(sflat), c20OptStr(cfee)
-			case "bid":
-				var pd string
-				if len(m.BuyerRatios) > 0 && r.Intn(8) != 0 {
+			if created && m.AccOrders && makerBid == 0 && makerAsk == 0 {
+				pd := c20PriceDenoms[r.Intn(len(c20PriceDenoms))]
+				if len(m.BuyerRatios) > 0 {
 					pd = m.BuyerRatios[r.Intn(len(m.BuyerRatios))].PD
+				}
+				makerBidPrice = c20Coin{pd, c20Big(r.Int63n(1_000_000) + 1000)}
+				bidFees := c20BuyerFees(r, m, makerBidPrice, true)
+				bmsg := &exchange.MsgCreateBidRequest{
+					BidOrder: exchange.BidOrder{MarketId: marketID, Buyer: maker.String(), Assets: assets, Price: makerBidPrice.sdk(),
+						BuyerSettlementFees: sdk.NewCoins(c20Coins(bidFees)...)},
+				}
+				if f := c20FlatChoice(r, m.CreateBid, true); f != nil {
+					c := f.sdk()
+					bmsg.OrderCreationFee = &c
+				}
+				if e := handle(mctx, bmsg); e == nil {
+					makerBid = c20LastOrder(app, mctx)
 				} else {
-					pd = c20PriceDenoms[r.Intn(len(c20PriceDenoms))]
+					w.Count("maker_bid_not_created")
 				}
-				price := c20Coin{pd, c20Big(r.Int63n(1_000_000) + 1)}
-				fees := c20BuyerFees(r, m, price, good())
-				cfee := c20FlatChoice(r, m.CreateBid, good())
-				msg = &exchange.MsgCreateBidRequest{
-					BidOrder:         exchange.BidOrder{MarketId: marketID, Buyer: a.addr.String(), Assets: assets, Price: price.sdk(), BuyerSettlementFees: sdk.NewCoins(c20Coins(fees)...)},
-					OrderCreationFee: toPtr(cfee),
+				makerAskPrice = c20Coin{pd, new(big.Int).Add(pow2(70), c20Big(r.Int63n(1000)))}
+				amsg := &exchange.MsgCreateAskRequest{
+					AskOrder: exchange.AskOrder{MarketId: marketID, Seller: maker.String(), Assets: assets, Price: makerAskPrice.sdk()},
 				}
-				term = "ACreateBid " + price.coq() + " " + c20CoqCoins(fees) + " " + c20CoqOptCoin(cfee)
-				d["msg"], d["price"], d["buyer_settlement_fees"], d["creation_fee"] = "MsgCreateBid", price.String(), c20StrCoins(fees), c20OptStr(cfee)
-			case "commit":
-				cfee := c20FlatChoice(r, m.CreateCom, good())
-				msg = &exchange.MsgCommitFundsRequest{Account: a.addr.String(), MarketId: marketID,
-					Amount: sdk.NewCoins(sdk.NewInt64Coin("ccoin", r.Int63n(1000)+1)), CreationFee: toPtr(cfee)}
-				term = "ACommit " + c20CoqOptCoin(cfee)
-				d["msg"], d["creation_fee"] = "MsgCommitFunds", c20OptStr(cfee)
-			case "fillbids":
-				sflat := c20FlatChoice(r, m.SellerFlat, good())
-				if len(m.SellerFlat) == 0 {
-					sflat = nil
+				if f := c20FlatChoice(r, m.SellerFlat, true); f != nil && len(m.SellerFlat) > 0 {
+					c := f.sdk()
+					amsg.AskOrder.SellerSettlementFlatFee = &c
 				}
-				cfee := c20FlatChoice(r, m.CreateAsk, good())
-				id := makerBid
-				bp := makerBidPrice
-				if id == 0 { // rejected before the orders are looked up
-					id, bp = 77, c20Coin{"pcoin", c20Big(5)}
+				if f := c20FlatChoice(r, m.CreateAsk, true); f != nil {
+					c := f.sdk()
+					amsg.OrderCreationFee = &c
 				}
-				msg = &exchange.MsgFillBidsRequest{Seller: a.addr.String(), MarketId: marketID, TotalAssets: sdk.NewCoins(assets),
-					BidOrderIds: []uint64{id}, SellerSettlementFlatFee: toPtr(sflat), AskOrderCreationFee: toPtr(cfee)}
-				term = "AFillBids " + bp.coq() + " " + c20CoqOptCoin(sflat) + " " + c20CoqOptCoin(cfee)
-				d["msg"], d["bid_price"], d["seller_settlement_flat_fee"], d["creation_fee"] = "MsgFillBids", bp.String(), c20OptStr(sflat), c20OptStr(cfee)
-			case "fillasks":
-				id := makerAsk
-				ap := makerAskPrice
-				if id == 0 {
-					id, ap = 77, c20Coin{"pcoin", c20Big(5)}
+				if e := handle(mctx, amsg); e == nil {
+					makerAsk = c20LastOrder(app, mctx)
+				} else {
+					w.Count("maker_ask_not_created")
 				}
-				fees := c20BuyerFees(r, m, ap, good())
-				cfee := c20FlatChoice(r, m.CreateBid, good())
-				msg = &exchange.MsgFillAsksRequest{Buyer: a.addr.String(), MarketId: marketID, TotalPrice: ap.sdk(),
-					AskOrderIds: []uint64{id}, BuyerSettlementFees: sdk.NewCoins(c20Coins(fees)...), BidOrderCreationFee: toPtr(cfee)}
-				term = "AFillAsks " + ap.coq() + " " + c20CoqCoins(fees) + " " + c20CoqOptCoin(cfee)
-				d["msg"], d["total_price"], d["buyer_settlement_fees"], d["creation_fee"] = "MsgFillAsks", ap.String(), c20StrCoins(fees), c20OptStr(cfee)
 			}
-			cctx, _ := mctx.CacheContext()
-			e := handle(cctx, msg)
-			d["ok"] = e == nil
-			addProbe("PAct "+c20CoqStrs(a.attrs)+" ("+term+") "+coqBool(e == nil), d)
-			w.Count("handler_" + kind)
-			w.Count("handler_probes")
-			if e == nil {
-				w.Count("handler_probes_accepted")
-				w.Count("handler_" + kind + "_accepted")
-			}
-			if created {
-				w.Nontrivial(fmt.Sprintf("act/%d/%d", mi, ai))
-			}
-		}
 
-		w.Add("CMarket "+m.coq()+" "+coqBool(created)+" "+coqList(probes),
-			desc{"market": m.desc(), "created": created, "probes": pdescs})
+			// ---- the message handlers ----
+			nAct := []int{24, 12}[phase]
+			for ai := 0; ai < nAct; ai++ {
+				a := pickAcct()
+				good := func() bool { return r.Intn(9) != 0 }
+				toPtr := func(c *c20Coin) *sdk.Coin {
+					if c == nil {
+						return nil
+					}
+					s := c.sdk()
+					return &s
+				}
+				var msg sdk.Msg
+				var term, kind string
+				d := desc{"probe": "handler", "account_attrs": a.attrs}
+				kinds := []string{"ask", "bid", "commit", "commit", "fillbids", "fillasks"}
+				kind = kinds[r.Intn(len(kinds))]
+				if kind == "fillbids" && makerBid == 0 && (created && m.AccOrders) {
+					kind = "ask"
+				}
+				if kind == "fillasks" && makerAsk == 0 && (created && m.AccOrders) {
+					kind = "bid"
+				}
+				switch kind {
+				case "ask":
+					var pd string
+					if len(m.SellerRatios) > 0 && r.Intn(8) != 0 {
+						pd = m.SellerRatios[r.Intn(len(m.SellerRatios))].PD
+					} else {
+						pd = c20PriceDenoms[r.Intn(len(c20PriceDenoms))]
+					}
+					sflat := c20FlatChoice(r, m.SellerFlat, good())
+					if len(m.SellerFlat) == 0 && r.Intn(2) == 0 {
+						sflat = nil
+					}
+					cfee := c20FlatChoice(r, m.CreateAsk, good())
+					price := c20Coin{pd, c20Big(r.Int63n(1_000_000_000) + 1)}
+					if r.Intn(6) == 0 { // near the fees taken out of the price
+						fa := c20Big(0)
+						if sflat != nil && sflat.D == pd {
+							fa = sflat.A
+						}
+						price.A = new(big.Int).Add(fa, c20Big(r.Int63n(4)))
+						if price.A.Sign() == 0 {
+							price.A = c20Big(1)
+						}
+					}
+					msg = &exchange.MsgCreateAskRequest{
+						AskOrder:         exchange.AskOrder{MarketId: marketID, Seller: a.addr.String(), Assets: assets, Price: price.sdk(), SellerSettlementFlatFee: toPtr(sflat)},
+						OrderCreationFee: toPtr(cfee),
+					}
+					term = "ACreateAsk " + price.coq() + " " + c20CoqOptCoin(sflat) + " " + c20CoqOptCoin(cfee)
+					d["msg"], d["price"], d["seller_settlement_flat_fee"], d["creation_fee"] = "MsgCreateAsk", price.String(), c20OptStr(sflat), c20OptStr(cfee)
+				case "bid":
+					var pd string
+					if len(m.BuyerRatios) > 0 && r.Intn(8) != 0 {
+						pd = m.BuyerRatios[r.Intn(len(m.BuyerRatios))].PD
+					} else {
+						pd = c20PriceDenoms[r.Intn(len(c20PriceDenoms))]
+					}
+					price := c20Coin{pd, c20Big(r.Int63n(1_000_000) + 1)}
+					fees := c20BuyerFees(r, m, price, good())
+					cfee := c20FlatChoice(r, m.CreateBid, good())
+					msg = &exchange.MsgCreateBidRequest{
+						BidOrder:         exchange.BidOrder{MarketId: marketID, Buyer: a.addr.String(), Assets: assets, Price: price.sdk(), BuyerSettlementFees: sdk.NewCoins(c20Coins(fees)...)},
+						OrderCreationFee: toPtr(cfee),
+					}
+					term = "ACreateBid " + price.coq() + " " + c20CoqCoins(fees) + " " + c20CoqOptCoin(cfee)
+					d["msg"], d["price"], d["buyer_settlement_fees"], d["creation_fee"] = "MsgCreateBid", price.String(), c20StrCoins(fees), c20OptStr(cfee)
+				case "commit":
+					cfee := c20FlatChoice(r, m.CreateCom, good())
+					msg = &exchange.MsgCommitFundsRequest{Account: a.addr.String(), MarketId: marketID,
+						Amount: sdk.NewCoins(sdk.NewInt64Coin("ccoin", r.Int63n(1000)+1)), CreationFee: toPtr(cfee)}
+					term = "ACommit " + c20CoqOptCoin(cfee)
+					d["msg"], d["creation_fee"] = "MsgCommitFunds", c20OptStr(cfee)
+				case "fillbids":
+					sflat := c20FlatChoice(r, m.SellerFlat, good())
+					if len(m.SellerFlat) == 0 {
+						sflat = nil
+					}
+					cfee := c20FlatChoice(r, m.CreateAsk, good())
+					id := makerBid
+					bp := makerBidPrice
+					if id == 0 { // rejected before the orders are looked up
+						id, bp = 77, c20Coin{"pcoin", c20Big(5)}
+					}
+					msg = &exchange.MsgFillBidsRequest{Seller: a.addr.String(), MarketId: marketID, TotalAssets: sdk.NewCoins(assets),
+						BidOrderIds: []uint64{id}, SellerSettlementFlatFee: toPtr(sflat), AskOrderCreationFee: toPtr(cfee)}
+					term = "AFillBids " + bp.coq() + " " + c20CoqOptCoin(sflat) + " " + c20CoqOptCoin(cfee)
+					d["msg"], d["bid_price"], d["seller_settlement_flat_fee"], d["creation_fee"] = "MsgFillBids", bp.String(), c20OptStr(sflat), c20OptStr(cfee)
+				case "fillasks":
+					id := makerAsk
+					ap := makerAskPrice
+					if id == 0 {
+						id, ap = 77, c20Coin{"pcoin", c20Big(5)}
+					}
+					fees := c20BuyerFees(r, m, ap, good())
+					cfee := c20FlatChoice(r, m.CreateBid, good())
+					msg = &exchange.MsgFillAsksRequest{Buyer: a.addr.String(), MarketId: marketID, TotalPrice: ap.sdk(),
+						AskOrderIds: []uint64{id}, BuyerSettlementFees: sdk.NewCoins(c20Coins(fees)...), BidOrderCreationFee: toPtr(cfee)}
+					term = "AFillAsks " + ap.coq() + " " + c20CoqCoins(fees) + " " + c20CoqOptCoin(cfee)
+					d["msg"], d["total_price"], d["buyer_settlement_fees"], d["creation_fee"] = "MsgFillAsks", ap.String(), c20StrCoins(fees), c20OptStr(cfee)
+				}
+				cctx, _ := mctx.CacheContext()
+				e := handle(cctx, msg)
+				d["ok"] = e == nil
+				addProbe("PAct "+c20CoqStrs(a.attrs)+" ("+term+") "+coqBool(e == nil), d)
+				w.Count("handler_" + kind)
+				w.Count("handler_probes")
+				if e == nil {
+					w.Count("handler_probes_accepted")
+					w.Count("handler_" + kind + "_accepted")
+				}
+				if created {
+					probeKey(fmt.Sprintf("act/%d/%d/%d", mi, phase, ai))
+				}
+			}
+		} // phase
+
+		if created && len(m0.CreateAsk)+len(m0.CreateBid)+len(m0.CreateCom)+len(m0.SellerFlat)+len(m0.BuyerFlat)+len(m0.BuyerRatios) > 0 &&
+			len(m0.ReqAsk)+len(m0.ReqBid)+len(m0.ReqCom) > 0 {
+			w.Nontrivial(m0.coq())
+		}
+		w.Add("CMarket "+m0.coq()+" "+coqBool(created)+" "+coqList(probes),
+			desc{"market": m0.desc(), "created": created, "probes": pdescs})
 		if mi%(nMarkets/4+1) == 0 { // evidence samples: the market and a few of its probes
 			var few []desc
 			for i := 0; i < len(pdescs); i += len(pdescs)/5 + 1 {
 				few = append(few, pdescs[i])
 			}
-			b, _ := json.Marshal(desc{"market": m.desc(), "created": created, "some_probes": few})
+			b, _ := json.Marshal(desc{"market": m0.desc(), "created": created, "some_probes": few})
 			w.Samples = append(w.Samples, b)
 		}
 	}
+	w.Stats["distinct_nontrivial_probes"] = int64(len(probeKeys))
 	w.Flush(t)
 }
 
